@@ -1215,6 +1215,23 @@ func genEqual(ctx *Ctx, emit func(any, string)) {
 			}
 		}
 	}
+	// depth is no limit: chains of 300 / 520 / 700 nested Stacks (every fourth hop
+	// through a Condition), equal and differing in the innermost leaf
+	for _, depth := range []int{300, 520, 700} {
+		chain := func(last int64) *Node {
+			cur := &Node{T: "stack", Kind: "OR", Els: []*Node{{T: "str", S: "bottom"}, {T: "int", I: last}}}
+			for d := 0; d < depth; d++ {
+				if d%4 == 3 {
+					cur = &Node{T: "stack", Kind: "AND", Els: []*Node{{T: "cond", Kw: "k", Op: &OpDesc{Builtin: 1}, Ex: cur}}}
+				} else {
+					cur = &Node{T: "stack", Kind: "AND", Els: []*Node{cur}}
+				}
+			}
+			return cur
+		}
+		emit(EqInput{A: chain(1), B: chain(1), Mut: "copy"}, "exhaustive")
+		emit(EqInput{A: chain(1), B: chain(2), Mut: "deep-leaf"}, "exhaustive")
+	}
 	// a Condition as the receiver
 	for i := 0; i < 6; i++ {
 		g := &eqGen{r: &Rng{s: uint64(4242 + i)}}
